@@ -63,6 +63,8 @@ class _Return(Exception):
 def length(v):
     if isinstance(v, Elems):
         return v.n
+    if isinstance(v, (_Lazy, Iter)):
+        return len(iterate(v))
     if isinstance(v, (list, tuple)):
         return len(v)
     raise Unmodelled(f"len of {type(v).__name__}")
@@ -112,6 +114,20 @@ class CardEval:
             if e.id in env:
                 return env[e.id]
             raise Unmodelled(f"unbound name {e.id}")
+        if isinstance(e, ast.Attribute):
+            key = ast.unparse(e)
+            if key in env:
+                return env[key]
+            raise Unmodelled(f"unbound attribute {key}")
+        if isinstance(e, ast.BoolOp):
+            is_or = isinstance(e.op, ast.Or)
+            v = None
+            for x in e.values:
+                r = self.ev_isinstance(x, env)
+                v = r if r is not None else self.ev(x, env)
+                if self.truth(v) == is_or:
+                    return v
+            return v
         if isinstance(e, (ast.List, ast.Tuple)):
             out = [self.ev(x, env) for x in e.elts]
             return out
@@ -212,10 +228,20 @@ class CardEval:
                 if isinstance(v, Iter):
                     return v
                 return Iter(length(v), getattr(v, "is_str", False))
+            if name == "islice" and len(args) >= 2 and isinstance(args[0], Elems):
+                args[0] = Iter(args[0].n, args[0].is_str)   # islice over a re-iterable: a fresh pass
             if name == "islice" and len(args) == 2 and isinstance(args[0], Iter) and (args[1] is None or (isinstance(args[1], int) and not isinstance(args[1], bool))):
                 if args[1] is not None and args[1] < 0:
                     raise Unmodelled("negative islice stop")
                 return _Lazy(args[0], args[1])
+            if name == "islice" and len(args) in (3, 4) and isinstance(args[0], Iter) and all(a is None or (isinstance(a, int) and not isinstance(a, bool)) for a in args[1:]):
+                start, stop = args[1], args[2]
+                step = args[3] if len(args) == 4 else None
+                if any(a is not None and a < 0 for a in (start, stop)) or (step is not None and step <= 0):
+                    raise Unmodelled("islice bounds")
+                got = len(range(args[0].n)[slice(start, stop, step)])
+                args[0].n = 0 if stop is None else max(0, args[0].n - stop)   # what islice leaves unconsumed
+                return Elems(got, args[0].is_str)
             if name == "accumulate" and len(args) == 1 and isinstance(args[0], list) and all(isinstance(x, int) for x in args[0]):
                 return list(itertools.accumulate(args[0]))
             if name == "isinstance" and len(args) == 0:
